@@ -77,6 +77,14 @@ def claimData (fs : List String) : String :=
     | _, _, _, _, _, _, _, _, _, _, _, _, _ => "bad-op"
   | _ => "bad-op"
 
+def l2blk (w : W) (num : String) (toks : List String) : W × String :=
+  match num.toNat? with
+  | some num => match parseEvs num toks w.nDeposits w.nClaims with
+    | some (bs, cs, nd, nc) =>
+      ({ w with s := Aggkit.Aggsender.step sizeFloat w.s (.l2blk ⟨num, bs, cs⟩), nDeposits := nd, nClaims := nc }, "ok")
+    | none => (w, "bad-op")
+  | none => (w, "bad-op")
+
 def step (w : W) (ws : List String) : W × String :=
   match ws with
   | "claimdata" :: fs => (w, claimData fs)
@@ -87,13 +95,8 @@ def step (w : W) (ws : List String) : W × String :=
     | _, _, _, _ => (w, "bad-op")
   | ["l1blk", _, _] => (w, "ok")
   | ["fin", _] => (w, "ok")
-  | "l2blk" :: num :: toks =>
-    match num.toNat? with
-    | some num => match parseEvs num toks w.nDeposits w.nClaims with
-      | some (bs, cs, nd, nc) =>
-        ({ w with s := Aggkit.Aggsender.step sizeFloat w.s (.l2blk ⟨num, bs, cs⟩), nDeposits := nd, nClaims := nc }, "ok")
-      | none => (w, "bad-op")
-    | none => (w, "bad-op")
+  | "l2blk!" :: num :: toks => l2blk w num toks     -- the faulted first attempt leaves nothing behind; the retry is the block
+  | "l2blk" :: num :: toks => l2blk w num toks
   | ["move", id, st] =>
     match id.toNat?, parseSt st with
     | some id, some st => ({ w with s := Aggkit.Aggsender.step sizeFloat w.s (.move id st) }, "ok")
@@ -104,6 +107,11 @@ def step (w : W) (ws : List String) : W × String :=
   | ["savefault", _] => (w, "ok")
   | ["crash"] => ({ w with s := Aggkit.Aggsender.step sizeFloat w.s .crash }, "ok")
   | ["losedb"] => ({ w with s := Aggkit.Aggsender.step sizeFloat w.s .losedb }, "ok")
+  | ["forge"] =>
+    if w.s.up then (w, "running")
+    else
+      let s := Aggkit.Aggsender.step sizeFloat w.s .forge
+      ({ w with s := s }, "ok rows=" ++ rowsStr s.loc)
   | ["restart"] =>
     if w.s.up then (w, "already")
     else
